@@ -167,10 +167,12 @@ Definition rule_at (W : world) (o : list vote) (x : vote) : Prop :=
     (* R3: not after final (retired slots ignore SafeToNotar) *)
     cast o s KFinal u = false /\
     (* R4 (SafeToNotar from Pool): stake condition, own vote in the slot is skip or notar for another
-       block, the block's parent is certified notar-fallback or stronger *)
+       block, the block's parent is certified notar-fallback or stronger - or is the genesis block,
+       which Pool::add_block treats as certified ("fix: treat the genesis block as a certified parent
+       for safe-to-notar"; no certificate for genesis can exist) *)
     s2n_stake W o (s, h) = true /\
     (cast o s KSkip u = true \/ cast_notar_other o s h u = true) /\
-    (exists p, w_parent W (s, h) = Some p /\ nf_cert W o p = true)
+    (exists p, w_parent W (s, h) = Some p /\ (nf_cert W o p = true \/ p = genesis))
   | KSkipFb =>
     (* R3 *)
     cast o s KFinal u = false /\
@@ -209,7 +211,7 @@ Definition rule_at_no_r4 (W : world) (o : list vote) (x : vote) : Prop :=
   match v_kind x with
   | KNotarFb h => 0 < v_slot x /\ cast o (v_slot x) KFinal (v_signer x) = false /\
                   (cast o (v_slot x) KSkip (v_signer x) = true \/ cast_notar_other o (v_slot x) h (v_signer x) = true) /\
-                  (exists p, w_parent W (v_slot x, h) = Some p /\ nf_cert W o p = true)
+                  (exists p, w_parent W (v_slot x, h) = Some p /\ (nf_cert W o p = true \/ p = genesis))
   | _ => rule_at W o x
   end.
 (* [rule_at] without R6 *)
